@@ -42,12 +42,15 @@ func runMain(f lib.Flags) error {
 
 	cf := lib.NewCaseFile("C29", f.Seed, f.Tier)
 	cf.Imports = []string{"Base", "Concurrency"}
-	cf.CaseType = "c29_case"
-	cf.Checks = []lib.Check{{Name: "tie", Kind: "tie", Fn: "c29_tie"}, {Name: "spec", Kind: "spec", Fn: "c29_spec"}}
+	cf.CaseType = "c29_any"
+	cf.Checks = []lib.Check{{Name: "tie", Kind: "tie", Fn: "c29_tie_any"}, {Name: "spec", Kind: "spec", Fn: "c29_spec_any"}}
 	cf.Side.Rule = "conformance: generated JSON files (0..~11000 lines: batch-size edges, malformed lines, an over-long line, produce failing at call k (LIMIT), " +
 		"ctx cancelled by the caller, a stalled consumer that lets the reader exhaust the tokens) through json.DatasourceExecuting.Run in child processes with " +
 		"GOMAXPROCS 1,2,4,16 and seeded delays at every protocol point; the logged trace must be a run of the Coq LTS into a final state (tie) along which the " +
 		"token invariant holds (spec). non-trivial = the run exits early (error, LIMIT, cancel) or the reader waits for a token or a worker result is reordered. " +
+		"join conformance: the real StreamJoin/OuterJoin over two scripted sources of up to 3x the channel capacity (read from the source), returning early " +
+		"(failing key expression / produce = LIMIT or error, failing source) or read to the end; the main loop's events (verifJoinRecv) with the sources' sends filled in " +
+		"must be a run of the join LTS into a final state with exactly the observed sends completed and a source blocked iff one was seen blocked (tie); Run must return (spec). " +
 		"search: the CLI built with -race runs generated queries (parallel JSON, JSON joins, LIKE/~/~* in both branches, stdin, LIMIT, injected parse error) under a timeout"
 
 	// ---- (1) conformance ----
@@ -106,7 +109,13 @@ func runMain(f lib.Flags) error {
 	wg.Add(1)
 	go func() {
 		defer wg.Done()
-		sr.cases, sr.note = raceSearch(repo, work, f)
+		jc := 0
+		for _, c := range k.JoinCaps {
+			if c > jc {
+				jc = c
+			}
+		}
+		sr.cases, sr.note = raceSearch(repo, work, f, jc)
 	}()
 	wg.Wait()
 
@@ -124,8 +133,8 @@ func runMain(f lib.Flags) error {
 			if cc.Sc.Plimit >= 0 {
 				pl = fmt.Sprintf("(Some %d)", cc.Sc.Plimit)
 			}
-			coq := fmt.Sprintf("(mkc29 %d %d %d %d %d %d %s [%s] %s [%s])", cc.W, cc.ScanN, k.Batch, k.CapJob, k.CapTok, k.CapOut,
-				coqBool(cc.Rerr), strings.Join(bad, "; "), pl, strings.Join(tr, "; "))
+			coq := fmt.Sprintf("(AJson (mkc29 %d %d %d %d %d %d %s [%s] %s [%s])", cc.W, cc.ScanN, k.Batch, k.CapJob, k.CapTok, k.CapOut,
+				coqBool(cc.Rerr), strings.Join(bad, "; "), pl, strings.Join(tr, "; ")) + ")"
 			early := cc.RunErr != ""
 			nontrivial := early || cc.Counts["rcancel"] > 0 || cc.Counts["drop"] > 0 || cc.Swaps > 0 || cc.Counts["enq"] >= k.CapTok
 			idx := cf.Add(coq, cc, nontrivial)
@@ -155,6 +164,35 @@ func runMain(f lib.Flags) error {
 			if cc.Viol != "" {
 				cf.Violation(idx, cc.Viol, "")
 			}
+		}
+	}
+	// ---- (1b) join conformance, in this process ----
+	joinCap := 0
+	for _, c := range k.JoinCaps {
+		if c > joinCap {
+			joinCap = c
+		}
+	}
+	jr := lib.NewRng(f.Seed ^ 0x6a01)
+	nJoin := 8
+	if f.Tier == "thorough" {
+		nJoin = 40
+	}
+	for i := 0; i < nJoin; i++ {
+		r := jr.Fork()
+		sc := genJoinScenario(r, i, joinCap)
+		jc := runJoinScenario(sc, joinCap)
+		early := jc.RunErr != ""
+		idx := cf.Add(jc.Coq, jc, early || jc.Blocked)
+		cf.Count("join_" + sc.Node + "_" + sc.Variant)
+		if jc.Blocked {
+			cf.Count("join_runs_returning_with_a_source_blocked")
+		}
+		if sc.NL > joinCap || sc.NR > joinCap {
+			cf.Count("join_inputs_above_channel_capacity")
+		}
+		if jc.Viol != "" {
+			cf.Violation(idx, jc.Viol, "")
 		}
 	}
 	if err := cf.Write(f.Out); err != nil { // writes cases.v; the sidecar is rewritten below with the search cases appended
@@ -245,7 +283,7 @@ func writeJSONL(path string, n int, gen func(i int) string) {
 	os.WriteFile(path, []byte(b.String()), 0o644)
 }
 
-func raceSearch(repo, work string, f lib.Flags) ([]searchCase, string) {
+func raceSearch(repo, work string, f lib.Flags, joinCap int) ([]searchCase, string) {
 	bin, note, err := buildRace(repo)
 	if err != nil {
 		return []searchCase{{Kind: "build", Viol: err.Error()}}, ""
@@ -263,6 +301,26 @@ func raceSearch(repo, work string, f lib.Flags) ([]searchCase, string) {
 		"bad.json": fmt.Sprintf("%d lines like a.json, line %d is malformed", na, 200+na/3),
 		"big.json": "9000 lines {id,k,s} (more than batch*tokens)",
 	}
+	nh := 3 * joinCap // well above the capacity of the join's message channels
+	if nh < 9000 {
+		nh = 9000
+	}
+	files["hugel.json"] = fmt.Sprintf("%d lines {id,k,s} (3x the join channel capacity %d)", nh, joinCap)
+	files["huger.json"] = fmt.Sprintf("%d lines {id,k,t}", nh)
+	hugeBadAt := 150 + r.Intn(300)
+	files["hugebad.json"] = fmt.Sprintf("%d lines like hugel.json, line %d is malformed", nh, hugeBadAt)
+	writeJSONL(filepath.Join(dir, "hugel.json"), nh, func(i int) string {
+		return fmt.Sprintf("{\"id\": %d, \"k\": %d, \"s\": \"name%d\"}", i, i%keys, i%7)
+	})
+	writeJSONL(filepath.Join(dir, "huger.json"), nh, func(i int) string {
+		return fmt.Sprintf("{\"id\": %d, \"k\": %d, \"t\": \"val%d\"}", i, i%keys, i%11)
+	})
+	writeJSONL(filepath.Join(dir, "hugebad.json"), nh, func(i int) string {
+		if i == hugeBadAt {
+			return "{\"id\": 7, \"k\": "
+		}
+		return fmt.Sprintf("{\"id\": %d, \"k\": %d, \"s\": \"name%d\"}", i, i%keys, i%7)
+	})
 	writeJSONL(filepath.Join(dir, "a.json"), na, func(i int) string {
 		return fmt.Sprintf("{\"id\": %d, \"k\": %d, \"s\": \"name%d\"}", i, i%keys, i%7)
 	})
@@ -296,8 +354,16 @@ func raceSearch(repo, work string, f lib.Flags) ([]searchCase, string) {
 		{"injected_error", "SELECT COUNT(*) FROM bad.json", "", true},
 		{"join_injected_error", "SELECT COUNT(*) FROM bad.json a JOIN b.json b ON a.k = b.k WHERE b.t ~ 'val'", "", true},
 		{"stdin", "SELECT COUNT(*) FROM stdin.json", "a.json", false},
-		{"stdin_limit", fmt.Sprintf("SELECT id FROM stdin.json LIMIT %d", lim), "big.json", false},
+		// early stop while far more input is pending on stdin than the scanner has buffered
+		{"stdin_limit", fmt.Sprintf("SELECT id FROM stdin.json LIMIT %d", 1+r.Intn(4)), "hugel.json", false},
+		{"stdin_limit", fmt.Sprintf("SELECT id, s FROM stdin.json WHERE s LIKE 'name%%' LIMIT %d", lim), "hugel.json", false},
+		{"stdin_error", "SELECT COUNT(*) FROM stdin.json", "hugebad.json", true},
 		{"stdin_join", "SELECT COUNT(*) FROM stdin.json a JOIN b.json b ON a.k = b.k WHERE a.s ~* 'NaMe'", "a.json", false},
+		// early stop of a join whose inputs have far more rows left than the join's channels hold
+		{"join_limit_over_capacity", fmt.Sprintf("SELECT l.id, r.id FROM hugel.json l JOIN huger.json r ON l.id = r.id LIMIT %d", 1+r.Intn(5)), "", false},
+		{"left_join_limit_over_capacity", fmt.Sprintf("SELECT l.id, r.id FROM hugel.json l LEFT JOIN huger.json r ON l.id = r.id LIMIT %d", 1+r.Intn(5)), "", false},
+		{"join_error_over_capacity", "SELECT COUNT(*) FROM hugebad.json l JOIN huger.json r ON l.id = r.id", "", true},
+		{"join_like_limit_over_capacity", fmt.Sprintf("SELECT l.id FROM hugel.json l JOIN huger.json r ON l.id = r.id WHERE l.s LIKE 'name%%' AND r.t ~ 'val' LIMIT %d", 1+r.Intn(5)), "", false},
 		{"self_join", "SELECT COUNT(*) FROM a.json a JOIN a.json b ON a.id = b.id WHERE a.s LIKE b.s", "", false},
 	}
 	reps := 1
@@ -311,7 +377,7 @@ func raceSearch(repo, work string, f lib.Flags) ([]searchCase, string) {
 				Gomaxprocs: gomaxprocs[(i+rep+int(f.Seed))%len(gomaxprocs)]})
 		}
 	}
-	sem := make(chan struct{}, 4)
+	sem := make(chan struct{}, 6)
 	var wg sync.WaitGroup
 	for i := range cases {
 		wg.Add(1)
